@@ -21,6 +21,7 @@ type vmBox struct {
 	mkToJSON  otto.Value
 	define    otto.Value
 	constFn   otto.Value
+	defGetter otto.Value
 	objectFn  otto.Value
 	fn        otto.Value
 	repl      map[int]otto.Value
@@ -70,6 +71,7 @@ func newBox(env int) *vmBox {
 	for i, s := range reviverSrc {
 		b.reviver[i] = must(s)
 	}
+	b.defGetter = must(`(function(o,k,h,v){Object.defineProperty(o,k,{get:function(){Object.defineProperty(this,h,{enumerable:false});return v},enumerable:true,configurable:true})})`)
 	b.constFn = must(`(function(p){return function(){return p}})`)
 	b.define = must(`(function(o,k,v){Object.defineProperty(o,k,{value:v,writable:true,enumerable:true,configurable:true})})`)
 	if envSrc[env] != "" {
@@ -144,6 +146,7 @@ type reader struct {
 	s     string
 	i     int
 	stack []otto.Value
+	hide  *string // set by an H token: the next def creates an accessor that hides this sibling
 }
 
 func (r *reader) units() []uint16 {
@@ -184,6 +187,14 @@ func (r *reader) box(p otto.Value) otto.Value {
 // def creates an own data property with [[DefineOwnProperty]] (o.Set would be [[Put]], which an
 // inherited accessor or read-only property intercepts).
 func (r *reader) def(o *otto.Object, k string, v otto.Value) {
+	if r.hide != nil {
+		h := *r.hide
+		r.hide = nil
+		if _, err := r.b.defGetter.Call(otto.UndefinedValue(), o.Value(), k, h, v); err != nil {
+			panic(err)
+		}
+		return
+	}
 	if _, err := r.b.define.Call(otto.UndefinedValue(), o.Value(), k, v); err != nil {
 		panic(err)
 	}
@@ -246,6 +257,11 @@ func (r *reader) value() otto.Value {
 			}
 		}
 		return w
+	case 'H':
+		h := string(utf16.Decode(r.units()))
+		inner := r.value()
+		r.hide = &h
+		return inner
 	case 'J':
 		inner := r.value()
 		v, err := r.b.mkToJSON.Call(otto.UndefinedValue(), inner)
